@@ -699,6 +699,19 @@ impl Arena {
 //@contract @rewind
 //@@end
 
+//@@fn file=sync.rs scope="impl Allocator for Arena {" name=clear xlate=sync st=mut props=C17,C09
+//@subst /let memory = &mut \*self\.inner\.as_ptr\(\);\s*memory\.clear\(\);/ => self.memory_clear(st);
+//@contract @clear
+//@after 1 /self\.memory_clear\(st\);/
+      proof {
+        st.list = Ghost(Seq::<Node>::empty());
+        lemma_dec_enc(SENTINEL_SEGMENT_NODE_SIZE, SENTINEL_SEGMENT_NODE_OFFSET);
+        assert(wf(self.av(), st@)) by {
+          assert forall|i: int| -1 <= i < st@.list.len() implies word(st@, #[trigger] cell_of(st@.list, i)) == enc(size_of_cell(st@.list, i), next_of(st@.list, i)) by {}
+        }
+      }
+//@@end
+
 } // impl Arena
 
 } // verus!
